@@ -8,6 +8,7 @@ set -u
 ROOT="$(cd "$(dirname "${BASH_SOURCE[0]}")" && pwd)"
 H="$ROOT/harness"
 export CARGO_NET_OFFLINE=true
+unset CARGO_TARGET_DIR CARGO_BUILD_TARGET_DIR RUSTFLAGS CARGO_ENCODED_RUSTFLAGS
 export LSVERIF_ROOT="$ROOT"
 CHECKED_FLAGS="--cfg lucid_suggest_verif"
 
